@@ -80,8 +80,45 @@ func (m *Map) hasSymKeys() bool {
 		return false
 	}
 	for _, kk := range m.Keys {
-		if isBStr(kk) {
+		if isSymKey(kk) {
 			return true
+		}
+	}
+	return false
+}
+
+// isSymKey: a map key whose equality with another key is not decided concretely (a byte-vector
+// string, a non-constant term, or an interface / struct / array holding one): such maps are kept as
+// lists and membership is the disjunction built by symFind
+func isSymKey(v Value) bool {
+	switch v := v.(type) {
+	case BStr:
+		return true
+	case *Term:
+		return !v.conc()
+	case *NumStr:
+		return !v.T.conc()
+	case string:
+		return hasTok(v)
+	case Iface:
+		return v.T != nil && isSymKey(v.V)
+	case []Value:
+		for _, x := range v {
+			if isSymKey(x) {
+				return true
+			}
+		}
+	case Structure:
+		for _, x := range v {
+			if isSymKey(x) {
+				return true
+			}
+		}
+	case Array:
+		for _, x := range v {
+			if isSymKey(x) {
+				return true
+			}
 		}
 	}
 	return false
@@ -110,7 +147,7 @@ func (m *Map) find(k Value) int {
 		if kk == nil {
 			continue
 		}
-		if isBStr(kk) || isBStr(k) {
+		if isSymKey(kk) || isSymKey(k) {
 			continue
 		}
 		if equalsConc(m.KT, kk, k) {
